@@ -969,3 +969,181 @@ func TestVerifC05Conc(t *testing.T) {
 		Assumptions: ccAssumptions,
 	})
 }
+
+// C05 (update-during-eviction tier) — "called with the value it held when it left": an in-place
+// Set of a key is queued on its shard lock AHEAD of the eviction of that key (the harness holds
+// the lock while both arrive; a Mutex held for more than 1 ms hands over first-come), so the
+// entry leaves the cache holding the new value. Whatever the order turns out to be, the last
+// value written to a key must be either resident or notified exactly once.
+
+type c05uCase struct {
+	MaxSize int   `json:"maxsize"`
+	Fill    int   `json:"fill"`     // unit-cost keys stored first (0..Fill-1, key 0 oldest)
+	Victims []int `json:"victims"`  // keys (among the oldest) that get a parked in-place update
+	BigCost int   `json:"big_cost"` // cost of the write that makes the policy evict
+	Reads   bool  `json:"reads"`    // read the younger half first (their entries move to the protected region)
+}
+
+func genC05u(t *rapid.T) c05uCase {
+	c := c05uCase{MaxSize: rapid.SampledFrom([]int{16, 32, 64, 100, 128}).Draw(t, "maxsize"), Reads: rapid.Bool().Draw(t, "reads")}
+	c.Fill = c.MaxSize * rapid.IntRange(6, 10).Draw(t, "fillTenths") / 10
+	c.BigCost = c.MaxSize * rapid.IntRange(5, 9).Draw(t, "bigTenths") / 10
+	c.Victims = rapid.SliceOfNDistinct(rapid.IntRange(0, 5), 1, 3, func(i int) int { return i }).Draw(t, "victims")
+	return c
+}
+
+func execC05u(c c05uCase, x *verifkit.Ctx) (fail *verifkit.Failure) {
+	if VerifNoMaintenance.Load() {
+		panic("needs real maintenance")
+	}
+	vkRealTime()
+	type call struct {
+		k int
+		v int64
+		r RemoveReason
+	}
+	var mu sync.Mutex
+	var calls []call
+	s := NewStore[int, int64](&StoreOptions[int, int64]{MaxSize: int64(c.MaxSize), Listener: func(k int, v int64, r RemoveReason) {
+		mu.Lock()
+		calls = append(calls, call{k, v, r})
+		mu.Unlock()
+	}})
+	defer s.Close()
+	last := map[int]int64{} // key -> last value written (every Set below returns before the next one to the same key starts)
+	written := map[int]map[int64]bool{}
+	put := func(k int, v int64, cost int64) bool {
+		ok := s.Set(k, v, cost, 0)
+		return ok
+	}
+	note := func(k int, v int64) {
+		last[k] = v
+		if written[k] == nil {
+			written[k] = map[int64]bool{}
+		}
+		written[k][v] = true
+	}
+	for k := 0; k < c.Fill; k++ {
+		v := int64(k)<<20 | 1
+		if put(k, v, 1) {
+			note(k, v)
+		}
+	}
+	s.Wait()
+	if c.Reads {
+		for rep := 0; rep < 40; rep++ {
+			for k := c.Fill / 2; k < c.Fill; k++ {
+				s.Get(k)
+			}
+		}
+		s.Wait()
+	}
+	// group the victims by shard: one lock holder per shard
+	type parked struct {
+		k int
+		v int64
+	}
+	byShard := map[int][]parked{}
+	for _, k := range c.Victims {
+		if k >= c.Fill {
+			continue
+		}
+		_, idx := s.index(k)
+		byShard[idx] = append(byShard[idx], parked{k, int64(k)<<20 | 2})
+	}
+	var wg sync.WaitGroup
+	for idx := range byShard {
+		s.shards[idx].mu.Lock()
+	}
+	for _, ps := range byShard {
+		for _, p := range ps {
+			p := p
+			wg.Add(1)
+			go func() {
+				defer wg.Done()
+				put(p.k, p.v, 1)
+			}()
+			note(p.k, p.v)
+			time.Sleep(150 * time.Microsecond) // parked on the shard lock before the next one arrives
+		}
+	}
+	// the write that makes the policy evict many of the oldest entries, the victims among them
+	bigKey := 1 << 24
+	wg.Add(1)
+	go func() {
+		defer wg.Done()
+		put(bigKey, int64(bigKey)<<20|1, int64(c.BigCost))
+	}()
+	note(bigKey, int64(bigKey)<<20|1)
+	time.Sleep(3 * time.Millisecond) // the maintenance goroutine is parked behind the updates by now
+	for idx := range byShard {
+		s.shards[idx].mu.Unlock()
+	}
+	done := make(chan struct{})
+	go func() { wg.Wait(); close(done) }()
+	select {
+	case <-done:
+	case <-time.After(20 * time.Second):
+		f := verifkit.Failf("conc/hang", "parked writers did not finish within 20 s")
+		f.Sticky = true
+		return f
+	}
+	s.Wait()
+	resident := map[int]int64{}
+	for _, sh := range s.shards {
+		tk := sh.mu.RLock()
+		for k, e := range sh.hashmap {
+			resident[k] = e.value
+		}
+		sh.mu.RUnlock(tk)
+	}
+	mu.Lock()
+	defer mu.Unlock()
+	times := map[call]int{}
+	for _, cl := range calls {
+		if !written[cl.k][cl.v] {
+			return verifkit.Failf("notify-update/unknown-value", "listener called with (%d, %#x, %v): that value was never written to the key", cl.k, cl.v, cl.r)
+		}
+		times[call{cl.k, cl.v, 0}]++
+		if cl.r == REMOVED {
+			return verifkit.Failf("notify-update/wrong-reason", "listener called with REMOVED for key %d although nothing was deleted", cl.k)
+		}
+	}
+	updatedEvicted := false
+	for _, k := range verifkit.SortedKeys(last) {
+		v := last[k]
+		n := times[call{k, v, 0}]
+		rv, res := resident[k]
+		switch {
+		case res && rv != v:
+			return verifkit.Failf("notify-update/resident-value", "key %d is resident with value %#x, the last value written is %#x", k, rv, v)
+		case res && n != 0:
+			return verifkit.Failf("notify-update/notified-but-resident", "key %d: its last value %#x is resident and was also notified %d times", k, v, n)
+		case !res && n != 1:
+			var got []string
+			for _, cl := range calls {
+				if cl.k == k {
+					got = append(got, fmt.Sprintf("(%#x, reason %d)", cl.v, cl.r))
+				}
+			}
+			return verifkit.Failf("notify-update/last-value-not-reported", "key %d: the last value written, %#x, is not resident and was notified %d times; notifications for the key: %v (an entry must be reported with the value it held when it left)", k, v, n, got)
+		}
+		if !res && v&0xfffff == 2 {
+			updatedEvicted = true
+		}
+	}
+	x.ClassIf(updatedEvicted, "updated-entry-evicted-with-its-new-value")
+	x.ClassIf(c.Reads, "with-reads")
+	if updatedEvicted {
+		x.NonTrivial()
+	}
+	return nil
+}
+
+func TestVerifC05Update(t *testing.T) {
+	verifkit.Run(t, verifkit.Spec[c05uCase]{
+		ID: "C05", Gen: genC05u, Exec: execC05u, Nondet: true,
+		Rule:        "C05 (update-during-eviction tier): rapid draws MaxSize 16..128, a fill of 60..100% unit-cost keys, 1..3 of the six oldest keys as victims and a heavy write (50..90% of MaxSize) that makes the policy evict; the harness holds the victims' shard locks, lets an in-place Set of each victim and then the heavy write park, and releases after 3 ms (first-come hand-over: updates first, eviction after them); at the end, for every key, the last value written is either resident or was reported exactly once, and no value is reported that was never written; non-trivial = an updated victim was evicted and reported with its new value",
+		Assumptions: []string{"real goroutines; the order in which parked lockers get the shard lock is the runtime's (first-come once the mutex has been held for 1 ms); the oracle is valid for either order", "entry pool off"},
+	})
+}
